@@ -53,6 +53,10 @@ CONFIG = {
              "0-9, ab, ba0) joined by StandardCharacterMatrix.concatenate; non-trivial = >= 2 distinct alphabets, a gap "
              "or missing symbol in columns of two different alphabets, and >= 1 change."),
     "assumptions": [
+        "taxa carried by internal nodes or the seed node (with or without a row in the matrix) do not take part: the "
+        "score is the minimum over assignments to ALL internal nodes given the cells of the leaves only (the "
+        "statement; also what the unchanged library does on such trees); about 40 % of the generated trees carry "
+        "1-3 such taxa",
         "ambiguity tables are hard-coded here from the library's declared alphabets: IUPAC nucleotide codes, X as a "
         "synonym of N for DNA/RNA, protein B={D,N}, Z={E,Q}, X=all 20 residues and '*'",
         "missing data '?' is compatible with every state including the gap state when gaps are a state "
@@ -264,10 +268,42 @@ def degree_profile(rt):
 # builders
 # ---------------------------------------------------------------------------
 
-def build_ns(n, m=None):
-    """Namespace T0..T(n-1) for the tree's leaves (+ one taxon per extra matrix row that is not on the tree)."""
-    extra = len(m.get("extra_rows") or []) if m is not None else 0
-    return shapes.build_namespace(shapes.plain_history(n + extra))
+def build_ns(n, ms=(), spec=None):
+    """Namespace T0..T(n-1) for the tree's leaves, followed by one taxon per extra matrix row (taxa that are not
+    leaves of the tree) and per taxon index carried by an internal node of `spec`."""
+    if isinstance(ms, dict):
+        ms = [ms]
+    size = n
+    for m in ms or ():
+        size = max(size, n + len(m.get("extra_rows") or []))
+    if spec is not None:
+        size = max(size, 1 + max(x["t"] for x in shapes.spec_nodes(spec) if x["t"] is not None))
+    return shapes.build_namespace(shapes.plain_history(size))
+
+
+def internal_taxa(spec):
+    """[(taxon index, is_seed)] for the internal nodes of spec that carry a taxon."""
+    out = []
+    for k, x in enumerate(shapes.spec_nodes(spec)):
+        if x["ch"] and x["t"] is not None:
+            out.append((x["t"], k == 0))
+    return out
+
+
+def count_internal_taxa(ctx, prefix, spec, n, ms):
+    it = internal_taxa(spec)
+    if not it:
+        ctx.cls(prefix + ".internal_taxa:none")
+        return
+    ctx.cls(prefix + ".internal_taxa:some")
+    if any(seed for _, seed in it):
+        ctx.cls(prefix + ".taxon_on_seed_node")
+    for m in ms:
+        r = len(m.get("extra_rows") or [])
+        if any(t < n + r for t, _ in it):
+            ctx.cls(prefix + ".internal_taxon_has_matrix_row")
+        if any(t >= n + r for t, _ in it):
+            ctx.cls(prefix + ".internal_taxon_without_matrix_row")
 
 
 def build_tree(spec, ns, taxa, rooting):
@@ -338,7 +374,7 @@ def snap(ctx, tree, what):
 
 def fresh_score(ctx, spec, rooting, m, gam, weights, per_char=False):
     n = len(m["rows"])
-    ns, taxa, _ = build_ns(n)
+    ns, taxa, _ = build_ns(n, m, spec)
     tree = build_tree(spec, ns, taxa, rooting)
     mat = build_matrix(m, ns, taxa)
     return call_score(tree, mat, gam, weights, per_char)
@@ -362,7 +398,7 @@ def check_score(ctx, case):
     nchar = len(m["rows"][0])
     dtype = m["dtype"]
 
-    ns, taxa, _ = build_ns(n, m)
+    ns, taxa, _ = build_ns(n, m, spec)
     tree = build_tree(spec, ns, taxa, rooting)
     mat = build_matrix(m, ns, taxa)
     rt = snap(ctx, tree, "base")
@@ -395,7 +431,8 @@ def check_score(ctx, case):
     if MISSING in cells:
         ctx.cls("score.has_missing")
     if m.get("extra_rows"):
-        ctx.cls("score.matrix_has_rows_for_taxa_not_on_tree")
+        ctx.cls("score.matrix_has_rows_for_taxa_not_at_leaves")
+    count_internal_taxa(ctx, "score", spec, n, [m])
     if any(len(TYPES[dtype]["table"].get(s, "x")) > 1 for s in cells):
         ctx.cls("score.has_ambiguity_code")
     if weights is not None and want != sum(changes):
@@ -471,7 +508,7 @@ def check_score(ctx, case):
                   rt.canon(ordered=True), got, lst, rtp.canon(ordered=True), gotp, lstp, m["rows"], weights, gam_arg))
 
     # -- root position: every edge, every internal vertex
-    idx = dict(("T%d" % i, i) for i in range(n))
+    idx = dict(("T%d" % i, i) for i in range(len(taxa)))
     nroot = 0
     for v in rt.nodes():
         if v == rt.root:
@@ -504,9 +541,10 @@ def check_history(ctx, case):
     from dendropy.model import parsimony
     spec, rooting, mats, calls = case["spec"], case["rooting"], case["mats"], case["calls"]
     n = len(mats[0]["rows"])
-    ns, taxa, _ = build_ns(n)
+    ns, taxa, _ = build_ns(n, mats, spec)
     tree = build_tree(spec, ns, taxa, rooting)
     rt = snap(ctx, tree, "history base")
+    count_internal_taxa(ctx, "history", spec, n, mats)
     rdeg, ideg = degree_profile(rt)
     if rdeg != (2 if rooting == "rooted" else 3) or (ideg - set([2])):
         raise runner.HarnessError("generator produced a tree outside the domain: %r" % (case,))
@@ -612,14 +650,17 @@ def check_edits(ctx, case):
     spec, rooting, m0, steps, wpool = case["spec"], case["rooting"], case["m"], case["steps"], case["wpool"]
     dtype = m0["dtype"]
     n = len(m0["rows"])
-    ns, taxa, _ = build_ns(n)
+    ns, taxa, _ = build_ns(n, m0, spec)
     tree = build_tree(spec, ns, taxa, rooting)
     rt = snap(ctx, tree, "edits base")
+    count_internal_taxa(ctx, "edits", spec, n, [m0])
     rdeg, ideg = degree_profile(rt)
     if rdeg != (2 if rooting == "rooted" else 3) or (ideg - set([2])):
         raise runner.HarnessError("generator produced a tree outside the domain: %r" % (case,))
     mat = build_matrix(m0, ns, taxa)
-    rows = [list(r) for r in m0["rows"]]
+    # model of the whole matrix: the rows of the tree's leaves, then the rows of taxa that are not leaves
+    rows = [list(r) for r in list(m0["rows"]) + list(m0.get("extra_rows") or [])]
+    n_all = len(rows)
     tri = "" if rooting == "rooted" else "_trifurcating_seed"
     log = []
     scored_gams = set()
@@ -632,13 +673,14 @@ def check_edits(ctx, case):
             apply_edit(mat, taxa, rows, e)
             shape_kept = e["kind"] in ("set", "swap_rows", "replace_row")
             ctx.cls("edits.edit:" + e["kind"])
-            got_syms = matrix_symbols(mat, taxa, n)
+            got_syms = matrix_symbols(mat, taxa, n_all)
             # compare by denoted state set: the matrix reports canonical symbols (x -> N, a -> A)
             denote = lambda table: [[leaf_set(dtype, c, False) for c in r] for r in table]
             ctx.check(denote(got_syms) == denote(rows), "the in-place edit is visible in the matrix",
                       "C16.matrix_edit_applied",
                       lambda: "after %r the matrix reads %r, expected %r" % (e, got_syms, rows))
-        cur = {"dtype": dtype, "rows": ["".join(r) for r in rows]}
+        cur = {"dtype": dtype, "rows": ["".join(r) for r in rows[:n]],
+               "extra_rows": ["".join(r) for r in rows[n:]]}
         gam_arg = stp["gam"]
         gam = eff_gam(gam_arg)
         width = len(rows[0])
@@ -657,7 +699,7 @@ def check_edits(ctx, case):
             t = tree if where == "same" else build_tree(spec, ns, taxa, rooting)
             got, lst = call_score(t, mat, gam_arg, weights, stp["per_char"])
             results.append((where, got, lst))
-        log.append({"step": k, "edit": e, "rows": cur["rows"], "gam": gam_arg, "weights": weights,
+        log.append({"step": k, "edit": e, "rows": cur["rows"], "extra_rows": cur["extra_rows"], "gam": gam_arg, "weights": weights,
                     "scores": results, "fresh": fresh, "oracle": want})
         for where, got, lst in results:
             ctx.check(got == fresh and lst == flst,
@@ -696,7 +738,10 @@ def check_concat(ctx, case):
     gam = eff_gam(gam_arg)
     n = len(parts[0]["rows"])
     widths = [len(p["rows"][0]) for p in parts]
-    ns, taxa, _ = build_ns(n)
+    ns, taxa, _ = build_ns(n, parts, spec)
+    if len(ns) != n + len(parts[0].get("extra_rows") or []):
+        raise runner.HarnessError("concat: every taxon of the namespace needs a row in every partition")
+    count_internal_taxa(ctx, "concat", spec, n, parts[:1])
     tree = build_tree(spec, ns, taxa, rooting)
     rt = snap(ctx, tree, "concat base")
     rdeg, ideg = degree_profile(rt)
@@ -707,7 +752,7 @@ def check_concat(ctx, case):
     desc = lambda: "tree=%s parts=%r weights=%r gaps_as_missing=%r" % (
         rt.canon(ordered=True), [(p["dtype"], p["rows"]) for p in parts], weights, gam_arg)
     # what concatenate is documented to deliver: same taxa, columns side by side
-    ctx.check(len(combined) == n and all(len(combined[taxa[i]]) == sum(widths) for i in range(n)),
+    ctx.check(len(combined) == len(ns) and all(len(combined[taxa[i]]) == sum(widths) for i in range(n)),
               "concatenate puts the partitions' columns side by side", "C16.concat_shape", desc)
     got_syms = matrix_symbols(combined, taxa, n)
     want_syms = [list("".join(p["rows"][i] for p in parts)) for i in range(n)]
@@ -779,10 +824,11 @@ def check_final(ctx, case):
     gam = eff_gam(m["gam"])
     n = len(m["rows"])
     nchar = len(m["rows"][0])
-    ns, taxa, _ = build_ns(n)
+    ns, taxa, _ = build_ns(n, m, spec)
     tree = build_tree(spec, ns, taxa, "rooted")
     mat = build_matrix(m, ns, taxa)
     rt = snap(ctx, tree, "final base")
+    count_internal_taxa(ctx, "final", spec, n, [m])
     if degree_profile(rt) not in ((2, set([2])), (2, set())):
         raise runner.HarnessError("final: tree not strictly bifurcating: %r" % (case,))
     states = universe(m["dtype"], gam)
@@ -839,6 +885,12 @@ def contract_root_child(spec, prefer_first):
 
 @st.composite
 def trees(draw, max_leaves, rootings=("rooted", "unrooted")):
+    """(spec, rooting, number of leaves, number of internal nodes carrying a taxon).
+
+    Leaves carry taxon indices 0..n-1.  In about 40 % of the trees 1-3 internal nodes (the seed node included, with
+    extra weight) carry a taxon of their own, indices n, n+1, ... - what reading "((A,B)F,C)R;" with
+    suppress_internal_node_taxa=False produces.  Whether the matrix has a row for such a taxon is decided by the
+    number of extra rows drawn with the matrix."""
     spec = draw(shapes.shapes(min_leaves=2, max_leaves=max_leaves, binary=True))
     n = shapes.n_leaves(spec)
     rooting = draw(st.sampled_from(list(rootings)))
@@ -846,7 +898,33 @@ def trees(draw, max_leaves, rootings=("rooted", "unrooted")):
         spec = contract_root_child(spec, draw(st.booleans()))
     else:
         rooting = "rooted"
-    return spec, rooting, n
+    k = 0
+    if draw(st.integers(0, 4)) < 2:
+        inner = [x for x in shapes.spec_nodes(spec) if x["ch"]]
+        want = draw(st.integers(1, min(3, len(inner))))
+        picks = draw(st.lists(st.sampled_from([0, 0] + list(range(len(inner)))), min_size=want, max_size=want,
+                              unique=True))
+        for j in sorted(picks):
+            inner[j]["t"] = n + k
+            k += 1
+    return spec, rooting, n, k
+
+
+def draw_extra_rows(draw, m, k, always=None):
+    """Rows for taxa that are not leaves of the tree: the first rows belong to the k internal-node taxa (so they
+    may or may not be covered), further rows to taxa that are in the namespace only."""
+    if always is not None:
+        r = always
+    elif k:
+        r = draw(st.integers(0, k + 1))
+    else:
+        r = draw(st.sampled_from([0, 0, 0, 1, 2]))
+    if r:
+        cell = st.sampled_from(TYPES[m["dtype"]]["all"])
+        width = len(m["rows"][0])
+        m["extra_rows"] = draw(st.lists(st.lists(cell, min_size=width, max_size=width).map("".join),
+                                        min_size=r, max_size=r))
+    return m
 
 
 @st.composite
@@ -884,23 +962,17 @@ def matrices(draw, n, max_chars, unambiguous=False, dtypes=None):
 
 @st.composite
 def score_cases(draw, max_leaves, max_chars):
-    spec, rooting, n = draw(trees(max_leaves))
-    m = draw(matrices(n, max_chars))
+    spec, rooting, n, k = draw(trees(max_leaves))
+    m = draw_extra_rows(draw, draw(matrices(n, max_chars)), k)
     perm = shapes.permute_children(draw, spec)
-    if draw(st.integers(0, 3)) == 0:
-        # rows for taxa of the same namespace that are not on the tree (they must not influence the score)
-        cell = st.sampled_from(TYPES[m["dtype"]]["all"])
-        width = len(m["rows"][0])
-        m["extra_rows"] = draw(st.lists(st.lists(cell, min_size=width, max_size=width).map("".join),
-                                        min_size=1, max_size=2))
     return {"spec": spec, "rooting": rooting, "m": m, "perm_spec": perm}
 
 
 @st.composite
 def history_cases(draw, max_leaves, max_chars):
-    spec, rooting, n = draw(trees(max_leaves))
+    spec, rooting, n, kint = draw(trees(max_leaves))
     k = draw(st.integers(1, 4))
-    mats = [draw(matrices(n, max_chars)) for _ in range(k)]
+    mats = [draw_extra_rows(draw, draw(matrices(n, max_chars)), kint) for _ in range(k)]
     ncalls = draw(st.integers(max(2, k), 6))
     calls = []
     for j in range(ncalls):
@@ -915,8 +987,9 @@ def history_cases(draw, max_leaves, max_chars):
 
 @st.composite
 def edit_cases(draw, max_leaves, max_chars):
-    spec, rooting, n = draw(trees(max_leaves))
-    m = draw(matrices(n, max_chars))
+    spec, rooting, n_leaf, kint = draw(trees(max_leaves))
+    m = draw_extra_rows(draw, draw(matrices(n_leaf, max_chars)), kint)
+    n = n_leaf + len(m.get("extra_rows") or [])  # edits address every row, also those of taxa that are not leaves
     T = TYPES[m["dtype"]]
     sym = st.one_of(st.sampled_from(T["fundsyms"]), st.sampled_from(T["all"]))
     width = len(m["rows"][0])
@@ -955,19 +1028,21 @@ def edit_cases(draw, max_leaves, max_chars):
                       "per_char": draw(st.booleans()),
                       "trees": draw(st.sampled_from([["same"], ["fresh"], ["same", "fresh"], ["fresh", "same"]]))})
     wpool = draw(st.lists(st.integers(0, 5), min_size=max_chars + 6, max_size=max_chars + 6))
-    return {"spec": spec, "rooting": rooting, "m": {"dtype": m["dtype"], "rows": m["rows"]}, "steps": steps,
-            "wpool": wpool}
+    return {"spec": spec, "rooting": rooting,
+            "m": {"dtype": m["dtype"], "rows": m["rows"], "extra_rows": m.get("extra_rows") or []},
+            "steps": steps, "wpool": wpool}
 
 
 @st.composite
 def concat_cases(draw, max_leaves, max_chars):
-    spec, rooting, n = draw(trees(max_leaves))
+    spec, rooting, n, kint = draw(trees(max_leaves))
     k = draw(st.integers(2, 3))
     std = ["std:" + f for f in STD_FUNDS]
     parts = []
     for j in range(k):
-        m = draw(matrices(n, max(1, max_chars // 2), dtypes=std))
-        parts.append({"dtype": m["dtype"], "rows": m["rows"]})
+        # concatenate() wants a row for every taxon of the namespace: internal-node taxa always have one here
+        m = draw_extra_rows(draw, draw(matrices(n, max(1, max_chars // 2), dtypes=std)), kint, always=kint)
+        parts.append({"dtype": m["dtype"], "rows": m["rows"], "extra_rows": m.get("extra_rows") or []})
     total = sum(len(p["rows"][0]) for p in parts)
     weights = draw(st.one_of(st.none(), st.lists(st.integers(0, 5), min_size=total, max_size=total)))
     gam = draw(st.sampled_from([True, False, False, None]))
@@ -976,8 +1051,8 @@ def concat_cases(draw, max_leaves, max_chars):
 
 @st.composite
 def final_cases(draw, max_leaves, max_chars):
-    spec, rooting, n = draw(trees(max_leaves, rootings=("rooted",)))
-    m = draw(matrices(n, max_chars, unambiguous=True))
+    spec, rooting, n, kint = draw(trees(max_leaves, rootings=("rooted",)))
+    m = draw_extra_rows(draw, draw(matrices(n, max_chars, unambiguous=True)), kint)
     m["weights"] = None
     m["gam"] = False
     return {"spec": spec, "m": m}
